@@ -87,6 +87,14 @@ CLAIMED = {
             "PARTIAL: linear hierarchies; generics modelled only as per-argument specialisation counters.",
             "Trusted: Lean kernel (core-only), renderer tools/classgen.py (cross-checked by an independent Python oracle), harness+orchestrator. "
             "Known finding: run-time overload re-resolution from the dynamic class (C08-dynamic-overload).", "DESIGN.md §4 C08"),
+    "C10": ("Lean 4 theorems: the evaluator model consults its function table only by name, so execute is invariant under every "
+            "permutation of the top-level functions (distinct names); class layout resolved by name is base-first under every permutation "
+            "of the class declarations + differential runs of the real pipeline on seeded programs and their permutations (reverse, "
+            "rotations, shuffles; class-free and class programs) with the Lean evaluator as reference on the class-free ones",
+            "Proof on the model for every program/permutation; PARTIAL: acceptance by the analyser and the class runtime are tied by "
+            "comparing the real pipeline across permutations (bounded), not by a theorem about a model of the analyser.",
+            "Trusted: Lean kernel (core-only), generators, harness+orchestrator. Defects found and repaired: forward-call signature, "
+            "class layout by declaration order, vtable pointers.", "DESIGN.md §4 C10"),
 }
 PENDING_REASON = "check not built yet in this revision of /verif (planned: Lean model + correspondence, see DESIGN.md §4)"
 
